@@ -608,6 +608,116 @@ func newPlainCtx(wl *wlPlain) *plainCtx {
 	return c
 }
 
+// callOrderPass builds a fresh graph of the model and calls its accessors in an
+// order drawn from the tape (the order of calls on an object is a history like
+// any other): whatever was called before, every answer must be the one a fresh
+// graph gives in the canonical order.
+func (c *plainCtx) callOrderPass(pm *openfgav1.AuthorizationModel) (msg string) {
+	defer func() {
+		if r := recover(); r != nil {
+			if simrt.IsAbort(r) {
+				panic(r)
+			}
+			msg = "panic: " + fmt.Sprint(r)
+		}
+	}()
+	g, err := graph.NewAuthorizationModelGraph(proto.Clone(pm).(*openfgav1.AuthorizationModel))
+	if err != nil {
+		return ""
+	}
+	ops := []string{"dot", "rev", "cycles", "revcycles", "path", "lookup", "rev2", "rev-again", "dot"}
+	for i := len(ops) - 1; i >= 1; i-- {
+		j := i - int(simrt.Draw(uint32(i+1)))
+		ops[i], ops[j] = ops[j], ops[i]
+	}
+	simrt.CountFault("history.call_order")
+	small := c.withCycles && g.Nodes().Len() <= 40
+	var rev *graph.AuthorizationModelGraph
+	needRev := func() bool {
+		if rev == nil {
+			rev, err = g.Reversed()
+		}
+		return err == nil && rev != nil
+	}
+	var done []string
+	bad := func(op, got, want string) string {
+		return fmt.Sprintf("after the calls %v on one graph object, %s answers %s; a fresh graph answers %s", done, op, shorten(got), shorten(want))
+	}
+	for _, op := range ops {
+		switch op {
+		case "dot":
+			if got := g.GetDOT(); got != c.canon.dot {
+				return bad("GetDOT", got, c.canon.dot)
+			}
+		case "rev":
+			if needRev() {
+				if got := rev.GetDOT(); got != c.canon.revDot {
+					return bad("Reversed().GetDOT", got, c.canon.revDot)
+				}
+			}
+		case "rev-again":
+			if r2, err := g.Reversed(); err == nil {
+				if got := r2.GetDOT(); got != c.canon.revDot {
+					return bad("another Reversed().GetDOT", got, c.canon.revDot)
+				}
+			}
+		case "rev2":
+			if needRev() {
+				if r2, err := rev.Reversed(); err == nil {
+					if got := r2.GetDOT(); got != c.canon.rev2Dot {
+						return bad("Reversed().Reversed().GetDOT", got, c.canon.rev2Dot)
+					}
+				}
+			}
+		case "cycles":
+			if small && c.canon.cycles != "" {
+				if got := cycleFlags(g.GetCycles()); got != c.canon.cycles {
+					return bad("GetCycles", got, c.canon.cycles)
+				}
+			}
+		case "revcycles":
+			if small && c.canon.revCyc != "" && needRev() {
+				if got := cycleFlags(rev.GetCycles()); got != c.canon.revCyc {
+					return bad("Reversed().GetCycles", got, c.canon.revCyc)
+				}
+			}
+		case "path":
+			n := 0
+			for _, a := range c.labels {
+				for _, b := range c.labels {
+					want, known := c.canon.paths[a+" => "+b]
+					if !known || n >= 12 {
+						continue
+					}
+					n++
+					if got, err := g.PathExists(a, b); err != nil || got != want {
+						return bad("PathExists("+a+","+b+")", fmt.Sprint(got, err), fmt.Sprint(want))
+					}
+					if needRev() {
+						if got, err := rev.PathExists(b, a); err != nil || got != want {
+							return bad("Reversed().PathExists("+b+","+a+")", fmt.Sprint(got, err), fmt.Sprint(want))
+						}
+					}
+				}
+			}
+		case "lookup":
+			var lk []string
+			for _, a := range c.labels {
+				if n, err := g.GetNodeByLabel(a); err != nil {
+					lk = append(lk, a+"=notfound")
+				} else {
+					lk = append(lk, fmt.Sprintf("%s=%d:%s", a, nkMap[n.NodeType()], n.Label()))
+				}
+			}
+			if got := strings.Join(lk, " "); got != c.canon.lookup {
+				return bad("GetNodeByLabel", got, c.canon.lookup)
+			}
+		}
+		done = append(done, op)
+	}
+	return ""
+}
+
 func (c *plainCtx) check(cfg simrt.Config) ([]mismatch, simrt.Stats, string) {
 	mm, st, summary := c.check0(cfg)
 	return settleAborted([]string{"C17"}, false, mm, st), st, summary
@@ -620,6 +730,7 @@ func (c *plainCtx) check0(cfg simrt.Config) ([]mismatch, simrt.Stats, string) {
 	}
 	simrt.Begin(cfg)
 	var o plainObs
+	callOrder := ""
 	simrt.Run([]func(){func() {
 		pm := c.pm
 		if c.wl.ScribbleFirst != nil {
@@ -638,8 +749,14 @@ func (c *plainCtx) check0(cfg simrt.Config) ([]mismatch, simrt.Stats, string) {
 			}
 		}
 		o = observePlain(pm, c.labels, c.withCycles)
+		if o.err == "" && o.panicMsg == "" && c.canon != nil && c.canon.err == "" && simrt.Draw(3) == 1 {
+			callOrder = c.callOrderPass(pm)
+		}
 	}})
 	st := simrt.End()
+	if callOrder != "" {
+		add("plain.call_order", "%s", callOrder)
+	}
 	if o.panicMsg != "" {
 		add("plain.panic", "panic: %s", o.panicMsg)
 		return mm, st, "panic"
